@@ -99,6 +99,7 @@ func fqPool(names, seqs []string, qalpha string) []fqRec {
 }
 
 func runC02(r *core.Run) {
+	defer everyLength(r)
 	racePass(r, "race-format-fastq", "the fastq codec: readers each on their own stream (whole and in 7-byte reads, every corpus file), Write on shared records into separate destinations, File on one shared path; every result is compared with what the same call returned when it ran alone")
 	firstCallClause(r, "fastq.")
 	pool := fqPool([]string{"", "a", "@", "+", "@+"}, enum.AllStrings("A@+", 2), "I@+")
